@@ -45,6 +45,48 @@ def _transform(chunk: bytes) -> bytes:
     return bytes(b ^ ((i * 31 + 7) & 0xFF) for i, b in enumerate(chunk))
 
 
+# byte ranges of a format 6-10 record that each selective-decompression bit governs (the layered formats; the earlier
+# formats have no layers and are always decoded completely, as in laz-rs)
+_LAYERS = {
+    SELECTIVE_DECOMPRESS_Z: [(8, 12)],
+    SELECTIVE_DECOMPRESS_INTENSITY: [(12, 14)],
+    SELECTIVE_DECOMPRESS_FLAGS: [(15, 16)],
+    SELECTIVE_DECOMPRESS_CLASSIFICATION: [(16, 17)],
+    SELECTIVE_DECOMPRESS_USER_DATA: [(17, 18)],
+    SELECTIVE_DECOMPRESS_SCAN_ANGLE: [(18, 20)],
+    SELECTIVE_DECOMPRESS_POINT_SOURCE_ID: [(20, 22)],
+    SELECTIVE_DECOMPRESS_GPS_TIME: [(22, 30)],
+}
+_ALL_BITS = 4095
+
+
+def _unselected_ranges(fmt, item, selection):
+    """byte ranges of one record that a decompressor with this selection does not decode (they read as zeros)"""
+    if fmt < 6:
+        return []
+    out = []
+    for bit, rs in _LAYERS.items():
+        if not selection & bit:
+            out += rs
+    std = _SIZES[fmt]
+    pos = 30
+    if fmt in (7, 8, 10):
+        if not selection & SELECTIVE_DECOMPRESS_RGB:
+            out.append((pos, pos + 6))
+        pos += 6
+    if fmt in (8, 10):
+        if not selection & SELECTIVE_DECOMPRESS_NIR:
+            out.append((pos, pos + 2))
+        pos += 2
+    if fmt in (9, 10):
+        if not selection & SELECTIVE_DECOMPRESS_WAVEPACKET:
+            out.append((pos, pos + 29))
+        pos += 29
+    if item > std and not selection & SELECTIVE_DECOMPRESS_ALL_EXTRA_BYTES:
+        out.append((std, item))
+    return out
+
+
 class LazVlr:
     def __init__(self, record_data):
         data = bytes(record_data)
@@ -151,6 +193,8 @@ class LasZipDecompressor:
     def __init__(self, source, record_data, selection=None):
         self.source = source
         self.vlr = _as_vlr(record_data)
+        self.selection = _ALL_BITS if selection is None else int(getattr(selection, "value", selection))
+        self._skip = _unselected_ranges(self.vlr.fmt, self.vlr.item_size(), self.selection)
         self.table_offset = struct.unpack("<q", _read_exact(source, 8))[0]
         self.first_chunk = None
         try:
@@ -182,6 +226,9 @@ class LasZipDecompressor:
             raw = _read_exact(self.source, take * item)
             base = self.in_chunk * item
             out[done * item:(done + take) * item] = bytes(b ^ (((base + i) * 31 + 7) & 0xFF) for i, b in enumerate(raw))
+            for k in range(done, done + take):
+                for a, b_ in self._skip:
+                    out[k * item + a:k * item + b_] = bytes(b_ - a)
             done += take
             self.in_chunk += take
             if self.in_chunk == cs:
@@ -285,5 +332,9 @@ def decompress_points_with_chunk_table(compressed, record_data, out, chunk_table
         if len(chunk) != size:
             raise LazrsError("compressed data shorter than the chunk table says")
         out_mv[opos:opos + size] = _transform(chunk)
+        sel = _ALL_BITS if selection is None else int(getattr(selection, "value", selection))
+        for k in range(cnt):
+            for a, b_ in _unselected_ranges(vlr.fmt, item, sel):
+                out_mv[opos + k * item + a:opos + k * item + b_] = bytes(b_ - a)
         pos += size
         opos += size
